@@ -4,8 +4,8 @@
 (case (sfl) (acts (dur d () (i 5) (i 5) F F () ((e 0)))) (fwd (ta 5 d () 5) (ta 0 d () 5)))
 ; overlapping identical instances of a fixed-duration action
 (case (sfl) (acts (dur d () (i 5) (i 5) F F () ((e 0)))) (fwd (ta 0 d () 5) (ta 2 d () 5)))
-; Int(2) and Real(2) actual parameters are different keys
-(case (sfl) (acts (dur a ((real)) (* (p 0) (r 3/2)) (* (p 0) (r 3/2)) F F () ((s 0)))) (fwd (ta 1 a ((r 2)) 3) (ta 0 a ((i 2)) 3) (ta 1 a ((r 2)) 3)))
+; rational parameter-dependent duration, Boolean and object parameters in the key
+(case (sfl) (acts (dur a ((int 1 4) (bool) (obj)) (/ (* (p 0) (r 3/2)) (i 2)) (/ (* (p 0) (r 3/2)) (i 2)) F F () ((s 0)))) (fwd (ta 1 a ((i 2) (b T) (o l1)) 3/2) (ta 0 a ((i 2) (b F) (o l1)) 3/2) (ta 1/2 a ((i 2) (b T) (o l1)) 3/2) (ta 0 a ((i 4) (b T) (o l3)) 3)))
 ; equal-valued but structurally different bounds: the code treats the duration as variable (end event at start+5)
 (case (sfl) (acts (dur a () (i 5) (r 5) F F () ())) (fwd (ta 0 a () 5)))
 ; variable duration, back-to-back instances listed in reverse: LIFO pairing fails (outside the property's quantifier; model = code)
